@@ -17,6 +17,10 @@ LIBOSMO = os.path.join(REPO, "src/shared/libosmocore")
 
 def cc(out, sources, *, includes=(), defines=(), extra=(), sanitize=True, cwd=None):
     cmd = [CC] + BASE + (SAN if sanitize else [])
+    if os.environ.get("VERIF_CCOV"):       # development aid: source coverage of the units under test
+        cmd += ["-fprofile-instr-generate", "-fcoverage-mapping"]
+        with open(os.path.join(os.environ["VERIF_CCOV"], "binaries.txt"), "a") as f:
+            f.write(out + "\n")
     for i in includes:
         cmd += ["-I", i]
     for d in defines:
